@@ -641,6 +641,26 @@ func (fv *FuncVC) processBlock(b *ssa.BasicBlock) {
 			hs := &State{kind: sHavoc, h: map[string]Term{}, parent: st, havocAll: li.havocAll, havoc: li.havoc,
 				site: fmt.Sprintf("L%d", li.ord), guard: in, bound: fv.alloc0, exclude: fv.mods, fv: fv, blk: b.Index,
 				freshBound: st.get("alloc"), oldWrites: li.oldWrites}
+			// heaps whose pre-existing memory the loop writes only through slices rooted before the loop: everything
+			// else that existed before the loop keeps its content
+			hs.oldTargets = map[string][]Term{}
+			for h, roots := range li.oldTargets {
+				if li.oldUnknown[h] || li.havocAll {
+					continue
+				}
+				ts := []Term{}
+				okAll := true
+				for _, r := range roots {
+					if ri, isIns := r.(ssa.Instruction); isIns && li.body[ri.Block()] {
+						okAll = false
+						break
+					}
+					ts = append(ts, app("s_arr", fv.val(r)))
+				}
+				if okAll {
+					hs.oldTargets[h] = ts
+				}
+			}
 			hs.havoc["alloc"] = true
 			st = hs.clone()
 			li.state = st
